@@ -7,6 +7,7 @@ import (
 	"fmt"
 	"os"
 	"reflect"
+	"strconv"
 	"strings"
 	"testing"
 	"time"
@@ -31,6 +32,12 @@ type C16Case struct {
 	Proof   int    `json:"proof"`             // proof height selector
 	Invalid string `json:"invalid,omitempty"` // parameter choice that validation rejects
 	Sectors int    `json:"sectors,omitempty"` // sectors in the existing contract (renew / refresh)
+	// Existing says what the chain knows about the existing contract (renew /
+	// refresh): "" it is confirmed; "unmined" it was formed but its formation
+	// transaction was never mined; "reorged" the block that confirmed it was
+	// reorganised away. In the last two the host can lock the contract but has
+	// no state element for it.
+	Existing string `json:"existing,omitempty"`
 	Basis   string `json:"basis"`             // same behind stale stale-unapplied unknown
 	K       int    `json:"k,omitempty"`       // how far behind / fork length
 	OnFork  bool   `json:"onFork,omitempty"`  // the renter's funds were created on its fork
@@ -79,6 +86,7 @@ func genC16(t *rapid.T) C16Case {
 	}
 	if c.RPC != "form" {
 		c.Sectors = rapid.IntRange(0, 2).Draw(t, "sectors")
+		c.Existing = []string{"", "", "", "", "unmined", "reorged"}[rapid.IntRange(0, 5).Draw(t, "existing")]
 	}
 	// half of the cases on the same tip, the rest spread over the other relations
 	if rapid.IntRange(0, 1).Draw(t, "sameTip") == 0 {
@@ -200,15 +208,19 @@ func newC16World(c C16Case) (w *c16World, err error) {
 	w.host = rhpc.NewRealHost(c16HostID, w.H.CM, w.hw, w.settled)
 	w.signer = &rhpc.FundAndSign{W: w.R.W, PK: c16ContractKey}
 	cs := w.H.CM.TipState()
-	if cs, _, err = w.grow(cs, 3, w.H.Addr(), nil, all...); err != nil {
+	var prefix, bs []types.Block
+	if cs, bs, err = w.grow(cs, 3, w.H.Addr(), nil, all...); err != nil {
 		return
 	}
-	if cs, _, err = w.grow(cs, 3, w.R.Addr(), nil, all...); err != nil {
+	prefix = append(prefix, bs...)
+	if cs, bs, err = w.grow(cs, 3, w.R.Addr(), nil, all...); err != nil {
 		return
 	}
-	if cs, _, err = w.grow(cs, int(n.MaturityDelay)+1, rhpc.VoidAddr, nil, all...); err != nil {
+	prefix = append(prefix, bs...)
+	if cs, bs, err = w.grow(cs, int(n.MaturityDelay)+1, rhpc.VoidAddr, nil, all...); err != nil {
 		return
 	}
+	prefix = append(prefix, bs...)
 	if err = w.syncAll(); err != nil {
 		return
 	}
@@ -230,8 +242,46 @@ func newC16World(c C16Case) (w *c16World, err error) {
 			return nil, fmt.Errorf("setup formation: %w", err)
 		}
 		w.host.T.WaitIdle(10 * time.Second)
-		if cs, _, err = w.grow(w.H.CM.TipState(), 1, rhpc.VoidAddr, w.H.CM.V2PoolTransactions(), all...); err != nil {
-			return
+		switch c.Existing {
+		case "unmined":
+			// the formation set stays in the host's pool; the chain moves on
+			// without it
+			if cs, _, err = w.grow(w.H.CM.TipState(), 1, rhpc.VoidAddr, nil, all...); err != nil {
+				return
+			}
+		case "reorged":
+			// confirmed in a block that is then replaced by a longer branch
+			// without it (built on a scratch node that never saw that block)
+			if _, _, err = w.grow(w.H.CM.TipState(), 1, rhpc.VoidAddr, w.H.CM.V2PoolTransactions(), all...); err != nil {
+				return
+			}
+			if err = w.syncAll(); err != nil {
+				return
+			}
+			var aux *rhpc.Node
+			if aux, err = rhpc.NewNode("aux", n, g); err != nil {
+				return
+			}
+			if err = aux.CM.AddBlocks(prefix); err != nil {
+				return nil, fmt.Errorf("aux: %w", err)
+			}
+			var alt []types.Block
+			if _, alt, err = w.grow(aux.CM.TipState(), 2, rhpc.VoidAddr, nil, aux); err != nil {
+				return
+			}
+			for _, nd := range all {
+				if err = nd.CM.AddBlocks(alt); err != nil {
+					return nil, fmt.Errorf("%s rejected the replacing branch: %w", nd.Name, err)
+				}
+				if nd.CM.Tip() != aux.CM.Tip() {
+					return nil, fmt.Errorf("HARNESS: %s did not reorganise to the replacing branch", nd.Name)
+				}
+			}
+			cs = aux.CM.TipState()
+		default:
+			if cs, _, err = w.grow(w.H.CM.TipState(), 1, rhpc.VoidAddr, w.H.CM.V2PoolTransactions(), all...); err != nil {
+				return
+			}
 		}
 		if err = w.syncAll(); err != nil {
 			return
@@ -568,6 +618,13 @@ func runC16(c C16Case, cs *kit.CaseStats) error {
 	if c.OnFork {
 		cs.Class("renter-funds-on-fork")
 	}
+	if c.RPC == "form" {
+		c.Existing = ""
+	}
+	if c.Existing != "" {
+		cs.Class("existing-contract=" + c.Existing)
+		cs.NonTrivial()
+	}
 	if c.Basis != "same" && c.Basis != "" {
 		cs.NonTrivial()
 	}
@@ -718,7 +775,7 @@ func runC16(c C16Case, cs *kit.CaseStats) error {
 			if d := renterBefore.Diff(renterAfter); d != "" {
 				return fmt.Errorf("%s failed (%v) and no contract was recorded, but the renter's wallet did not return to its pre-attempt state: %s", head, callErr, d)
 			}
-			if f.Kind == "" && c.Invalid == "" && (c.Basis == "same" || c.Basis == "behind" || (c.Basis == "stale" && !c.OnFork)) {
+			if f.Kind == "" && c.Invalid == "" && c.Existing == "" && (c.Basis == "same" || c.Basis == "behind" || (c.Basis == "stale" && !c.OnFork)) {
 				// nothing stands in the way of this exchange
 				return fmt.Errorf("non-vacuity: %s without any fault failed: %v", head, callErr)
 			}
@@ -754,7 +811,17 @@ func TestC16Enum(t *testing.T) {
 	defer d.Done()
 	all := os.Getenv("VERIF_C16_ALL") != ""
 	var failures []string
+	shard, shards := 0, 1
+	if v, err := strconv.Atoi(os.Getenv("VERIF_SHARDS")); err == nil && v > 1 {
+		shards = v
+		shard, _ = strconv.Atoi(os.Getenv("VERIF_SHARD"))
+	}
+	unit := 0
 	run := func(c C16Case) {
+		unit++
+		if (unit-1)%shards != shard {
+			return
+		}
 		cs := &kit.CaseStats{}
 		err := c16Prop.SafeRun(c, cs)
 		if err != nil && all {
@@ -800,6 +867,19 @@ func TestC16Enum(t *testing.T) {
 			c := base
 			c.Invalid = inv
 			run(c)
+		}
+		if rpc != "form" {
+			// the host can lock the existing contract but has no state element
+			// for it; host cost > 0 (collateral above the existing one)
+			for _, ex := range []string{"unmined", "reorged"} {
+				for _, b := range []string{"same", "behind", "unknown"} {
+					for _, f := range []rhpc.Fault{{}, {Kind: "cut", Dir: rhpc.R2H, Index: 1}} {
+						c := base
+						c.Existing, c.Basis, c.K, c.Coll, c.Reps, c.Fault = ex, b, 1, 90, 3, f
+						run(c)
+					}
+				}
+			}
 		}
 	}
 	if len(failures) > 0 {
